@@ -32,6 +32,7 @@ type subListener struct {
 	got    []subGot
 	seen   int
 	done   bool
+	closed bool // the application closed this sub-listener while the split listener keeps running
 }
 
 // C17: split listener gives authenticated sub-listeners only authenticated connections.
@@ -167,6 +168,25 @@ func propC17(r *kernel.Run) {
 				r.Count("ops.late_get_listener", 1)
 			}
 		}
+		// the application may close one of its protocol-specific sub-listeners while the rest keeps running. The name stays
+		// registered: connections offering it are closed, they do not become another sub-listener's
+		if tp.Draw(7) == 0 {
+			var open []string
+			for _, n := range names {
+				if !subs[n].closed && n != nodenet.AuthenticatedNonSpecificNextProto && n != nodenet.UnauthenticatedNextProto {
+					open = append(open, n)
+				}
+			}
+			if len(open) > 0 {
+				n := open[tp.Draw(len(open))]
+				ln := subs[n].ln
+				r.Sched.Go("closer:"+n, "closer", func() { ln.Close() })
+				w.Quiesce()
+				subs[n].closed = true
+				hist = append(hist, fmt.Sprintf("application closed sub-listener %q", n))
+				r.Count("ops.specific_sub_listener_closed_mid_run", 1)
+			}
+		}
 		several := false
 		if ci == ncl-1 {
 			// last client: an authenticated client whose extras may match several registered sub-listeners. Which one
@@ -197,6 +217,11 @@ func propC17(r *kernel.Run) {
 			if extras != nil {
 				opts = append(opts, nodeenrollment.WithExtraAlpnProtos(extras))
 			}
+			if tp.Draw(5) == 0 {
+				// kilobytes of client state: the request spreads over dozens of ALPN entries, the extras come after them
+				opts = append(opts, nodeenrollment.WithState(bigStruct(r, []int{2000, 5000, 9000}[tp.Draw(3)])))
+				r.Count("cfg.large_client_state", 1)
+			}
 			res := w.DialHonest(fmt.Sprintf("auth%d", r.NextID()), nodeW, w.Addr, opts...)
 			w.Quiesce()
 			where, conns := newDeliveries()
@@ -207,14 +232,28 @@ func propC17(r *kernel.Run) {
 				r.Violate("routing", "honest-dial-failed", "%s: %v", desc, shortErr(res.err))
 			}
 			var specific []string
+			offeredClosed := false
 			for _, e := range extras {
 				if registered(e) {
+					if subs[e].closed {
+						offeredClosed = true
+						continue
+					}
 					specific = append(specific, e)
 				}
+			}
+			if offeredClosed {
+				r.Count("probe.client_offers_closed_sub_listeners_protocol", 1)
 			}
 			switch {
 			case len(where) > 1:
 				r.Violate("routing", "delivered-more-than-once", "%s", desc)
+			case offeredClosed:
+				// (which of several offered names is found first is the library's; the connection may be closed or reach
+				// another offered, open sub-listener - never one it did not offer)
+				if len(where) == 1 && !contains(specific, where[0]) {
+					r.Violate("routing", "closed-sub-listeners-connection-given-to-another", "%s (its protocol's sub-listener is registered and closed)", desc)
+				}
 			case len(specific) > 0:
 				if len(where) != 1 || !contains(specific, where[0]) {
 					r.Violate("routing", "not-delivered-to-offered-protocol", "%s (want one of %q)", desc, specific)
